@@ -532,3 +532,16 @@ def r5(ctx):
 def r6(ctx):
     from .c05 import r4 as close_reason
     close_reason(ctx)
+
+
+@rule("R-C06-7", min_instances=4, title="skip_utf8_validation given to create_connection / WebSocket reaches the reassembler and the frame reader")
+def r_options(ctx):
+    from .options import create_connection_plumbing
+    create_connection_plumbing(ctx)
+
+
+@rule("R-C06-8", min_instances=2, title="trace logging does not change what is accepted, rejected or passed through (send_frame / recv_data_frame behave identically with tracing on)")
+def r8(ctx):
+    from .c01 import r8 as trace_equivalence
+    trace_equivalence(ctx)
+
